@@ -69,8 +69,8 @@ def simulate_goarch(ctx, bindir, goarches, tabled):
     an overlay in which the expression runtime.GOARCH of arch/info.go reads VERIF_GOARCH. Returns [(message, witness)]."""
     src = os.path.join(vlib.REPO, "arch", "info.go")
     text = open(src).read()
-    if text.count("runtime.GOARCH") != 1:
-        ctx.skip("arch/info.go does not contain exactly one `runtime.GOARCH`: the GOARCH simulation cannot be applied")
+    if text.count("runtime.GOARCH") < 1:
+        ctx.skip("arch/info.go does not mention `runtime.GOARCH`: the GOARCH simulation cannot be applied")
         return []
     ov_file = ctx.path("overlay", "info.go")
     open(ov_file, "w").write(text.replace("runtime.GOARCH", "verifGOARCH()") +
